@@ -334,8 +334,7 @@ func (l *locksPlugin) OnCall(in *Interp, fs *FState, site ssa.Instruction, calle
 		case callee == l.voc.osfsLock:
 			return true, l.flockAcquire(in, fs)
 		case callee == l.voc.osfsUnlk:
-			lp(fs).flock = -1
-			l.events++
+			l.flockRelease(in, fs, site)
 			return true, in.top()
 		case callee == l.voc.osfsMMap:
 			return true, l.mmapAcquire(in, fs)
@@ -380,8 +379,7 @@ func (l *locksPlugin) OnCall(in *Interp, fs *FState, site ssa.Instruction, calle
 		l.release(in, fs, site, "txlock")
 		return true, Top{}
 	case isNamed(recvT, modPath+"/internal/vfs", "File") && m.Name() == "Unlock":
-		lp(fs).flock = -1
-		l.events++
+		l.flockRelease(in, fs, site)
 		return true, in.top()
 	case isNamed(recvT, modPath+"/internal/vfs", "File") && m.Name() == "Lock":
 		return true, l.flockAcquire(in, fs)
@@ -425,6 +423,27 @@ func (l *locksPlugin) mmapAcquire(in *Interp, fs *FState) Value {
 	errSym := in.symAt(in.instrTag())
 	lp(fs).mmap = errSym
 	return TupleV{[]Value{in.nonNil(), Top{errSym}}}
+}
+
+// flockRelease: the path lock is dropped.  In File.Close (the File is published: transactions of other
+// goroutines may be running) the release must happen in the quiescent section — Reserved, Pending and
+// Exclusive held, i.e. after the wait for active readers — otherwise a second Open of the path succeeds
+// while this File is still mapped and in use.
+func (l *locksPlugin) flockRelease(in *Interp, fs *FState, site ssa.Instruction) {
+	p := lp(fs)
+	if l.role == "close" && p.flock != resReleased {
+		var missing []string
+		for _, c := range []string{"reserved", "pending", "exclusive"} {
+			if p.n[c] == 0 {
+				missing = append(missing, c)
+			}
+		}
+		if len(missing) > 0 {
+			in.report("FLOCK-QUIESCENT", site, "path lock released in File.Close without "+strings.Join(missing, "/")+" held: transactions of this File can still be active (Close has not yet waited for them) while another Open of the same path already succeeds")
+		}
+	}
+	p.flock = -1
+	l.events++
 }
 
 func (l *locksPlugin) flockAcquire(in *Interp, fs *FState) Value {
